@@ -90,7 +90,7 @@ func (g *G) declareLocal(t *Type) {
 			}
 		}
 		for _, o := range g.globals {
-			if !g.declaredInCurrentBlock(o.Name) {
+			if !g.declaredInCurrentBlock(o.Name) && !g.hidden[o.Name] {
 				cands = append(cands, o)
 			}
 		}
@@ -214,6 +214,10 @@ func (g *G) stmt() {
 		}
 		g.switchStmt()
 	case pick(w.callStmt):
+		if g.r.Chance(1, 4) && len(g.marks) <= 3 && g.hidden == nil {
+			g.lambdaStmt()
+			return
+		}
 		g.callStmt()
 	case pick(w.appendS):
 		g.appendStmt()
@@ -392,10 +396,19 @@ func (g *G) assignStmt() {
 			g.noCalls = true
 			g.line("%s += %s", lv, core.Pick(g.r, []string{core.Pick(g.r, strLits), "string(rune(97 + len(" + lv + ")%26))"}))
 			g.noCalls = save
-		} else if g.loopDepth == 0 {
+		} else if g.loopDepth == 0 && !g.inRecursive {
 			g.line("%s = %s", lv, g.strExpr(exprDepth))
 		} else {
-			g.line("%s = %s", lv, g.strExpr(1))
+			// inside loops (and recursive functions) a string may only grow additively: an assignment
+			// whose right-hand side mentions string variables could double it on every iteration
+			switch g.r.Intn(3) {
+			case 0:
+				g.line("%s = %s", lv, core.Pick(g.r, strLits))
+			case 1:
+				g.line("%s = %s[:len(%s)/2]", lv, lv, lv)
+			default:
+				g.line("%s = %s[len(%s)/2:] + %s", lv, lv, lv, core.Pick(g.r, strLits))
+			}
 		}
 	default:
 		e, _ := g.expr(t, exprDepth)
@@ -1069,7 +1082,20 @@ func (g *G) callStmt() {
 			g.line("%s", call)
 			return
 		}
-		g.line("%s := %s", strings.Join(ls, ", "), call)
+		sameType := len(nv) == len(f.Results)
+		for _, rt := range f.Results {
+			if !rt.Eq(f.Results[0]) {
+				sameType = false
+			}
+		}
+		if sameType && g.r.Chance(1, 2) {
+			// var a, b T = f(): typed declaration of several variables from one multi-result call
+			g.line("var %s %s = %s", strings.Join(ls, ", "), f.Results[0].str(g.pkg), call)
+		} else if g.r.Chance(1, 5) {
+			g.line("var %s = %s", strings.Join(ls, ", "), call)
+		} else {
+			g.line("%s := %s", strings.Join(ls, ", "), call)
+		}
 		for _, v := range nv {
 			g.declare(v)
 			g.line("_ = %s", v.Name)
@@ -1134,6 +1160,89 @@ func (g *G) callArgs(f *Func) (string, bool) {
 		}
 	}
 	return strings.Join(as, ", "), true
+}
+
+// lambdaStmt declares a function literal (no captured variables: closures are
+// outside the subset), calls it, and passes it on where a function-typed
+// parameter wants one.
+func (g *G) lambdaStmt() {
+	np := g.r.Intn(3)
+	var ps []*Var
+	for i := 0; i < np; i++ {
+		ps = append(ps, &Var{Name: fmt.Sprintf("a%d", i), T: g.scalarType()})
+	}
+	nr := g.r.Range(1, 2)
+	var rts []*Type
+	for i := 0; i < nr; i++ {
+		rts = append(rts, g.scalarType())
+	}
+	if g.r.Chance(1, 3) {
+		// the func(int) int shape that function-typed parameters use
+		ps = []*Var{{Name: "a0", T: TInt}}
+		rts = []*Type{TInt}
+	}
+	// generate the body in an isolated context: only its parameters and the globals are visible
+	saveScope, saveMarks, saveRes, savePure, saveBudget, saveLoop, saveNoCalls := g.scope, g.marks, g.curResults, g.curPure, g.budget, g.loopDepth, g.noCalls
+	g.hidden = map[string]bool{}
+	for _, v := range saveScope {
+		g.hidden[v.Name] = true
+	}
+	g.scope, g.marks = nil, nil
+	g.push()
+	for _, p := range ps {
+		g.declare(p)
+	}
+	g.curResults, g.curPure, g.budget, g.loopDepth, g.noCalls = rts, true, g.r.Range(1, 3), 0, true
+	name := g.name("fn")
+	var sig []string
+	for _, p := range ps {
+		sig = append(sig, p.Name+" "+p.T.str(g.pkg))
+	}
+	var rs []string
+	for _, t := range rts {
+		rs = append(rs, t.str(g.pkg))
+	}
+	rt := " " + rs[0]
+	if len(rs) > 1 {
+		rt = " (" + strings.Join(rs, ", ") + ")"
+	}
+	g.line("%s := func(%s)%s {", name, strings.Join(sig, ", "), rt)
+	g.ind++
+	for _, p := range ps {
+		g.line("_ = %s", p.Name)
+	}
+	for i := 0; i < 2 && g.budget > 0; i++ {
+		g.stmt()
+	}
+	g.returnStmt()
+	g.ind--
+	g.line("}")
+	g.pop()
+	g.scope, g.marks, g.curResults, g.curPure, g.budget, g.loopDepth, g.noCalls = saveScope, saveMarks, saveRes, savePure, saveBudget, saveLoop, saveNoCalls
+	g.hidden = nil
+	// call it
+	var args []string
+	for _, p := range ps {
+		save := g.noCalls
+		g.noCalls = true
+		e, _ := g.leaf(p.T)
+		g.noCalls = save
+		args = append(args, e)
+	}
+	var ls []string
+	for range rts {
+		ls = append(ls, g.name("v"))
+	}
+	g.line("%s := %s(%s)", strings.Join(ls, ", "), name, strings.Join(args, ", "))
+	for i, l := range ls {
+		g.declare(&Var{Name: l, T: rts[i]})
+		g.line("_ = %s", l)
+	}
+	ft := &Type{K: KFunc, Results: rts}
+	for _, p := range ps {
+		ft.Params = append(ft.Params, p.T)
+	}
+	g.declare(&Var{Name: name, T: ft, RO: true})
 }
 
 func (g *G) multiStmt() {
